@@ -43,6 +43,8 @@ def main(argv=None):
         if a.replay:
             return replay(mod, ctx, a.replay)
         mod.run(ctx)
+        if a.tier == "thorough" and os.environ.get("VERIF_SELFTEST", "1") != "0" and ctx.repo.root == "/repo":
+            ctx.informational["selftest"] = run_selftest(prop)
         from .report import finish
         cmd = f"./check {prop} --tier {a.tier}"
         return finish(ctx, mod.CLAIM, mod.EXPLANATION, list(getattr(mod, "ASSUMPTIONS", [])), TRUSTED_BASE, cmd)
@@ -53,6 +55,33 @@ def main(argv=None):
         traceback.print_exc()
         print(f"ANALYSIS-ERROR property={prop} internal error: {type(e).__name__}: {e}")
         return 2
+
+
+def run_selftest(prop):
+    """Thorough tier only, informational: seeded faults / benign variants of this property against scratch copies.
+    Never changes the exit code -- a missed seeded fault is a weakness of the checker, not a violation of pDESy."""
+    import json as _json
+    import subprocess
+    import tempfile
+    out = tempfile.mktemp(prefix="pdesy-sa-selftest-", suffix=".json")
+    try:
+        r = subprocess.run([sys.executable, "-B", "-m", "sa.selftest", "--only", prop, "--json", out], capture_output=True, text=True,
+                           cwd=os.path.dirname(os.path.dirname(os.path.abspath(__file__))), timeout=900)
+        data = _json.load(open(out))
+        muts = data.get("mutants", [])
+        bens = data.get("benign", [])
+        c = {}
+        for m in muts:
+            c[m["status"]] = c.get(m["status"], 0) + 1
+        return {"seeded_faults": len(muts), "by_status": c, "not_caught": [m["id"] for m in muts if m["status"] not in ("caught", "caught-other-rule", "not-applicable")],
+                "benign_variants": len(bens), "false_alarms": [b["id"] for b in bens if b["status"] == "FALSE-ALARM"]}
+    except Exception as e:  # informational only
+        return {"error": f"{type(e).__name__}: {e}"}
+    finally:
+        try:
+            os.remove(out)
+        except OSError:
+            pass
 
 
 TRUSTED_BASE = [
